@@ -117,16 +117,46 @@ def reducers_clause(model, rep, funcs):
     f = funcs.get(LG + "average")
     if f is not None:
         rep.instance("SLOT.mean", f.loc())
-        means = [c for c in calls_in(f) if (dotted(c.func) or "").split(".")[-1] in ("mean", "sum", "median")]
-        MG = Matcher(f)
-        b: dict = {}
-        ok, why = MG.all_of(["$tasks = []", "$keys = []", "for $key, $loader in self:\n    ...", "$keys.append($key)",
-                             "$tasks.append(da.mean($loader.construct_dask(...), axis=0))", "$out = da.compute($tasks)[0]"], b)
-        okz = ok and (MG.has("{$k: $xp.asnumpy($v) for $k, $v in zip($keys, $out)}", b) or MG.has("{$k: $v for $k, $v in zip($keys, $out)}", b))
-        ok = ok and len(means) == 1
-        rep.ob("SLOT", f.anchor, "each group average is mean(axis=0) of that group's own stack, returned under that group's key", bool(ok and okz),
-               why or f"{[norm_src(m)[:60] for m in means]}; keys and results are not zipped in the order they were appended", node=f.node, fn=f, clause="1 reducers",
-               stmt="def LoaderGroup.average")
+        # decided on symbolic terms (sa/domains/terms.py): the returned mapping {K: V} must have K = key component of the generic element of iterating
+        # `self` and V = mean(axis=0) of construct_dask() of the *loader component of the same element* - whatever loop / comprehension / pair-list spelling
+        from ..domains.terms import T, TermDomain, calls_of, strip, subterms
+        dom = TermDomain()
+        out = Interp(model, dom, depth=1).run(f, self_val=T("param", ("self",)))
+        ok, det = None, f"returns {out!r}"[:200]
+        d = None
+        for s_ in subterms(out) if isinstance(out, T) else []:
+            if s_.op == "dict":
+                d = dict(s_.args)
+        if isinstance(out, T) and out.op == "dict":
+            d = dict(out.args)
+        if d is not None and "$key" in d and "$dyn" in d:
+            E = T("elem", (T("param", ("self",)),))
+            k, v = d["$key"], strip(d["$dyn"])
+            okk = k == T("item", (E, 0))
+            means = [c for c in subterms(d["$dyn"]) if c.op == "call" and ((c.args[0].op == "ext" and str(c.args[0].args[0]).rsplit(".", 1)[-1] in ("mean", "sum", "median", "nanmean", "average"))
+                                                                           or (c.args[0].op == "attr" and c.args[0].args[1] in ("mean", "sum", "median")))]
+            okv = False
+            why = ""
+            if len(means) == 1 and means[0] == v:
+                m = means[0]
+                red = str(m.args[0].args[0]).rsplit(".", 1)[-1] if m.args[0].op == "ext" else m.args[0].args[1]
+                axis = dict(m.args[2]).get("axis")
+                src_ = m.args[1][0] if m.args[0].op == "ext" and m.args[1] else (m.args[0].args[0] if m.args[0].op == "attr" else None)
+                if axis is None and m.args[0].op == "ext" and len(m.args[1]) > 1:
+                    axis = m.args[1][1]
+                cds = calls_of(src_, attr_name="construct_dask") if src_ is not None else []
+                okv = red == "mean" and axis == T("const", ("0",)) and len(cds) == 1 and strip(src_) == cds[0] and cds[0].args[0].args[0] == T("item", (E, 1))
+                why = f"value is {red}(axis={axis!r}) of {src_!r}"[:200]
+            else:
+                why = f"value `{d['$dyn']!r}`"[:200] + f" has {len(means)} reducers or is wrapped by something that is not value-preserving"
+            ok = bool(okk and okv)
+            det = "" if ok else (("key is " + repr(k) + ", not the group's own key; ") if not okk else "") + why
+        reorder = [n for n in ast.walk(f.node) if (isinstance(n, ast.Call) and (dotted(n.func) or "").split(".")[-1] in ("sorted", "reversed", "sort", "reverse", "set", "shuffle"))
+                   or (isinstance(n, ast.Slice) and n.step is not None)]
+        if ok and reorder:
+            ok, det = False, f"`{norm_src(reorder[0])[:60]}` re-orders one of the lists that are paired by position"
+        rep.ob("SLOT", f.anchor, "each group average is mean(axis=0) of that group's own stack, returned under that group's key", ok, det, node=f.node, fn=f,
+               clause="1 reducers", stmt="def LoaderGroup.average")
     f = funcs.get(LB + "construct_dask")
     if f is not None:
         st = [c for c in calls_in(f) if (dotted(c.func) or "").endswith("stack")]
